@@ -108,7 +108,7 @@ def run(ctx):
         return replay(ctx)
     quick = ctx.quick
     # ------------------------------------------------------------------ 1. model + case enumeration
-    cases, mstats = vlife.stream_tree_cases(ctx, "fault", NB, vlife.pick_mc_shapes(ctx, extra=["coalesce_parts"]), workers=4 if quick else 8)
+    cases, mbg = vlife.stream_tree_cases(ctx, "fault", NB, vlife.pick_mc_shapes(ctx, extra=["coalesce_parts"]), workers=4 if quick else 8)
     by_shape = collections.defaultdict(list)
     for c in cases:
         by_shape[c["shape"]].append(c)
@@ -136,7 +136,7 @@ def run(ctx):
                 if quick and (li + pi + ctx.seed) % 2:
                     continue
                 refs.append({"id": f"sprobe:{sh}:{pool}:{lim}", "sql": b["sql"], "dataset": dsn, "exec": ex, "mem": {"pool": pool, "limit": lim}})
-    ref_res = vlife.run_items(ctx, refs, datasets, "ref", procs=4)
+    ref_res = vlife.run_items(ctx, refs, datasets, "ref", procs=6)
     drift = []
     for sh in vlife.ALL_SHAPES:
         r = ref_res[f"ref:{sh}"]
@@ -196,7 +196,7 @@ def run(ctx):
         base = next(x for x in refs if x["id"] == f"sref:{sh}")
         probes = [(pool, lim, ref_res[f"sprobe:{sh}:{pool}:{lim}"]) for lim in SPILL_LIMITS for pool in ("fair", "greedy")
                   if f"sprobe:{sh}:{pool}:{lim}" in ref_res]
-        spilling = [(pool, lim, r) for pool, lim, r in probes if r["counters"]["spill_writes"] > 0]
+        spilling = [(pool, lim, r) for pool, lim, r in probes if (r.get("counters") or {}).get("spill_writes", 0) > 0 and r["outcome"] in ("ok", "err")]
         if quick:
             spilling = spilling[:1]
         for pool, lim, pr in spilling:
@@ -224,8 +224,9 @@ def run(ctx):
            [(2, 1, ctx.seed, None), (3, 1, ctx.seed + 500, ["join", "agg", "setop", "subquery", "sort", "limit", "distinct"]), (2, 2, ctx.seed + 900, None)]
     sqlc = []
     pg_states = 0
-    for gi, (d, ed, sd, feats) in enumerate(gens):
-        cs, gr = sqlcases.generate(ctx, nq // len(gens), sd, depth=d, edepth=ed, maxrows=4, features=feats, tag=f"plangen{gi}", workers=4)
+    gen_out = vlife.parallel([(lambda gi=gi, d=d, ed=ed, sd=sd, feats=feats: sqlcases.generate(
+        ctx, nq // len(gens), sd, depth=d, edepth=ed, maxrows=4, features=feats, tag=f"plangen{gi}", workers=2)) for gi, (d, ed, sd, feats) in enumerate(gens)])
+    for gi, (cs, gr) in enumerate(gen_out):
         pg_states += gr.distinct
         for c in cs:
             c["id"] = f"q{gi}-{c['id']}"
@@ -278,7 +279,7 @@ def run(ctx):
         for it in items + sql_items:
             if it.get("fault") and it["fault"]["kind"] == "src_err":
                 it["fault"]["kind"] = "src_swallow"
-    res = vlife.run_items(ctx, items + sql_items, datasets, "faults", procs=4 if quick else 6, timeout=6000)
+    res = vlife.run_items(ctx, items + sql_items, datasets, "faults", procs=6, budget=600 if quick else 6000)
     res.update(ref_res)
 
     # ------------------------------------------------------------------ 3. verdicts
@@ -352,6 +353,7 @@ def run(ctx):
         raise ToolError("unexpected harness outcome")
     if classes["err_after_fault"] + classes["panic_propagated"] < 20:
         raise ToolError("vacuity: almost no injected fault was observed as an error")
+    mstats = mbg.join()
     write_evidence(ctx, "fault_enumeration", {
         "evaluations": evaluations, "distinct_nontrivial": len(nontrivial),
         "rule": "case = <query, execution variant, fault kind, table/partition, position k> — shapes and source/udf fault points enumerated by TLC from "
